@@ -20,6 +20,7 @@ import (
 	"sort"
 	"strconv"
 	"strings"
+	"sync"
 	"time"
 
 	"gitlab.com/aquachain/aquachain/aqua/accounts"
@@ -1230,6 +1231,252 @@ func substitutionCases(rng *hx.Rng, n int) {
 	}
 }
 
+// updateCases: KeyStore.Update must leave at the path EXACTLY the new encoding (file = last write, no residue), whatever was
+// there before: a LONGER encoding written by another KeyStore on the same directory with larger scrypt parameters, an
+// indented re-serialisation of the file, a legacy v1 file.  Afterwards the new passphrase opens the identical key and
+// address (Unlock + signer, Export, DecryptKey of the file bytes) and the old one fails.
+func updateCases(rng *hx.Rng, rounds int, thorough bool) {
+	type params struct{ n1, p1, n2, p2 int }
+	combos := []params{{1024, 10, 2, 1}, {4096, 1, 2, 1}, {256, 12, 128, 3}, {2, 1, 1024, 10}, {1024, 1, 1024, 1}}
+	if thorough {
+		combos = append(combos, params{16384, 1, 4096, 1}, params{keystore.LightScryptN, keystore.LightScryptP, 2, 1})
+	}
+	verify := func(family string, ks *keystore.KeyStore, acc accounts.Account, scalar []byte, addr common.Address, pwOld, pwNew string, n2, p2 int, before []byte) {
+		in := map[string]interface{}{"family": family, "key": hex.EncodeToString(scalar), "old-passphrase": pwOld, "new-passphrase": pwNew,
+			"file-before-update": string(before), "scryptN": n2, "scryptP": p2}
+		run.Current("update " + family)
+		if err := ks.Update(acc, pwOld, pwNew); err != nil {
+			violate("roundtrip", "KeyStore.Update ("+family+")", in, fmt.Sprintf("Update with the right passphrase: %v", err))
+			return
+		}
+		js, err := os.ReadFile(acc.URL.Path)
+		if err != nil {
+			panic(err)
+		}
+		in["file-after-update"] = string(js)
+		eR := expect{"R", scalar, addr}
+		if !json.Valid(js) {
+			violate("update-residue", "KeyStore.Update ("+family+"): file is not exactly the new encoding", in,
+				fmt.Sprintf("the file after Update is not a JSON document (%d bytes, %d before)", len(js), len(before)))
+		} else if a := keystore.VerifAbstract(js); asNum(a.KDFParams["n"]).v != n2 || asNum(a.KDFParams["p"]).v != p2 {
+			violate("update-residue", "KeyStore.Update ("+family+"): kdfparams are not those of the updating KeyStore", in, fmt.Sprint(a.KDFParams))
+		}
+		dkCase(origin{"bare DecryptKey (file after Update, " + family + ")", "v3-scrypt", "", ""}, eR, js, pwNew)
+		if pwOld != pwNew {
+			dkCase(origin{"bare DecryptKey (file after Update, " + family + ")", "v3-scrypt", "", ""}, expect{kind: "W"}, js, pwOld)
+			if err := ks.Unlock(acc, pwOld); err == nil {
+				violate("wrong-pass-accepted", "KeyStore.Unlock after Update ("+family+")", in, "the old passphrase still unlocks")
+				ks.Lock(acc.Address)
+			}
+		}
+		if err := ks.Unlock(acc, pwNew); err != nil {
+			violate("roundtrip", "KeyStore.Unlock after Update ("+family+")", in, fmt.Sprintf("the new passphrase does not unlock: %v", err))
+		} else {
+			if sg, err := signerAfterUnlock(ks, acc); err != nil || sg != hex.EncodeToString(addr[:]) {
+				violate("signer-mismatch", "KeyStore.Unlock after Update", in, fmt.Sprintf("signer %s err %v", sg, err))
+			}
+			ks.Lock(acc.Address)
+		}
+		if ex, err := ks.Export(acc, pwNew, "exported"); err != nil {
+			violate("roundtrip", "KeyStore.Export after Update ("+family+")", in, fmt.Sprintf("%v", err))
+		} else {
+			dkCase(origin{"bare DecryptKey (Export after Update, " + family + ")", "v3-scrypt", "", ""}, eR, ex, "exported")
+		}
+		run.Count("update:" + family)
+	}
+	for rd := 0; rd < rounds; rd++ {
+		for _, c := range combos {
+			// (a) written by a KeyStore with (n1,p1), updated through a second KeyStore on the same directory with (n2,p2)
+			dir := newDir()
+			scalar := genScalar(rng, rd%4)
+			_, addr := addrOfScalar(scalar)
+			pwOld, pwNew := genPass(rng, 5), genPass(rng, 1+rng.Intn(5))
+			ks1 := keystore.NewKeyStore(dir, c.n1, c.p1)
+			acc, err := ks1.ImportECDSA(crypto.ToECDSAUnsafe(scalar), pwOld)
+			if err != nil {
+				panic(err)
+			}
+			before, _ := os.ReadFile(acc.URL.Path)
+			ks2 := keystore.NewKeyStore(dir, c.n2, c.p2)
+			if accs := ks2.Accounts(); len(accs) == 1 {
+				verify(fmt.Sprintf("n,p %d,%d -> %d,%d", c.n1, c.p1, c.n2, c.p2), ks2, accs[0], scalar, addr, pwOld, pwNew, c.n2, c.p2, before)
+			} else {
+				flowFail("update: second KeyStore on the directory", map[string]interface{}{"dir": dir}, fmt.Sprint(len(accs), " accounts"))
+			}
+			os.RemoveAll(dir)
+		}
+		// (b) an indented re-serialisation of the file (same content, longer text), (c) a legacy v1 file
+		for _, fam := range []string{"indented file", "v1-scrypt file", "v1-pbkdf2 file", "v3-pbkdf2 file"} {
+			dir := newDir()
+			scalar := genScalar(rng, (rd+1)%4)
+			_, addr := addrOfScalar(scalar)
+			pwOld, pwNew := genPass(rng, 5), genPass(rng, 1+rng.Intn(5))
+			var content []byte
+			switch fam {
+			case "indented file":
+				js, err := keystore.EncryptKey(mkKey(rng, scalar), pwOld, 2, 1)
+				if err != nil {
+					panic(err)
+				}
+				var m map[string]interface{}
+				json.Unmarshal(js, &m)
+				content, _ = json.MarshalIndent(m, "", "    ")
+			case "v1-scrypt file":
+				content = buildV1(rng, "scrypt", scalar, pwOld)
+			case "v1-pbkdf2 file":
+				content = buildV1(rng, "pbkdf2", scalar, pwOld)
+			default:
+				content = buildV3(rng, "pbkdf2", scalar, pwOld)
+			}
+			fn := filepath.Join(dir, "UTC--2026-01-01T00-00-00.000000000Z--"+hex.EncodeToString(addr[:]))
+			if err := os.WriteFile(fn, content, 0o600); err != nil {
+				panic(err)
+			}
+			ks := keystore.NewKeyStore(dir, 2, 1)
+			if accs := ks.Accounts(); len(accs) == 1 {
+				verify(fam, ks, accs[0], scalar, addr, pwOld, pwNew, 2, 1, content)
+			} else {
+				flowFail("update: foreign file not listed", map[string]interface{}{"file": string(content)}, fmt.Sprint(len(accs), " accounts"))
+			}
+			os.RemoveAll(dir)
+		}
+	}
+	// (d) the repo's own v1 key directory (scrypt n = 262144: thorough only)
+	if thorough {
+		repo := os.Getenv("VERIF_REPO")
+		if repo == "" {
+			repo = "/repo"
+		}
+		src := filepath.Join(repo, "testdata", "testkeystore", "v1", "cb61d5a9c4896fb9658090b597ef0e7be6f7b67e", "cb61d5a9c4896fb9658090b597ef0e7be6f7b67e")
+		if content, err := os.ReadFile(src); err == nil {
+			if k, err := keystore.DecryptKey(content, "g"); err == nil {
+				dir := newDir()
+				fn := filepath.Join(dir, "UTC--2026-01-01T00-00-00.000000000Z--cb61d5a9c4896fb9658090b597ef0e7be6f7b67e")
+				os.WriteFile(fn, content, 0o600)
+				ks := keystore.NewKeyStore(dir, 2, 1)
+				if accs := ks.Accounts(); len(accs) == 1 {
+					verify("repo testdata v1 file", ks, accs[0], k.PrivateKey.Serialize(), k.Address, "g", "new passphrase", 2, 1, content)
+				}
+				os.RemoveAll(dir)
+			}
+		}
+	}
+}
+
+// concurrentCases: EncryptKey is a pure function of (key, passphrase, n, p, salt, iv): the output of one call must not depend
+// on other calls running at the same time.  k goroutines encrypt / store / update / export concurrently, every call with its
+// OWN scrypt parameters (large enough for the calls to overlap); afterwards, on the main goroutine, every produced blob must
+// carry the (n, p) of its own call and open with its own passphrase to its own key.
+func concurrentCases(rng *hx.Rng, rounds, k int) {
+	type job struct {
+		scalar []byte
+		pw     string
+		n, p   int
+		what   string
+		blobs  [][]byte // results
+		errs   []string
+	}
+	ns := []int{1024, 2048, 4096, 8192, 16384}
+	for rd := 0; rd < rounds; rd++ {
+		jobs := make([]*job, k)
+		root := newDir()
+		for i := range jobs {
+			jobs[i] = &job{scalar: genScalar(rng, i%4), pw: fmt.Sprintf("pass-%d-%d-%s", rd, i, genPass(rng, 5)), n: ns[(i+rd)%len(ns)], p: 1 + (i+rd)%3,
+				what: []string{"EncryptKey", "ImportECDSA+Export", "NewAccount", "ImportECDSA+Update"}[i%4]}
+		}
+		keys := make([]*keystore.Key, k)
+		for i, j := range jobs {
+			keys[i] = mkKey(rng, j.scalar) // (rng is not goroutine-safe: everything random is drawn here)
+		}
+		var wg sync.WaitGroup
+		for i, j := range jobs {
+			wg.Add(1)
+			go func(i int, j *job) {
+				defer wg.Done()
+				defer func() {
+					if e := recover(); e != nil {
+						j.errs = append(j.errs, fmt.Sprint("panic: ", e))
+					}
+				}()
+				dir := filepath.Join(root, strconv.Itoa(i))
+				for rep := 0; rep < 2; rep++ {
+					switch j.what {
+					case "EncryptKey":
+						b, err := keystore.EncryptKey(keys[i], j.pw, j.n, j.p)
+						if err != nil {
+							j.errs = append(j.errs, err.Error())
+						} else {
+							j.blobs = append(j.blobs, b)
+						}
+					case "ImportECDSA+Export", "ImportECDSA+Update":
+						ks := keystore.NewKeyStore(filepath.Join(dir, strconv.Itoa(rep)), j.n, j.p)
+						acc, err := ks.ImportECDSA(crypto.ToECDSAUnsafe(j.scalar), j.pw)
+						if err != nil {
+							j.errs = append(j.errs, err.Error())
+							continue
+						}
+						if b, err := os.ReadFile(acc.URL.Path); err == nil {
+							j.blobs = append(j.blobs, b)
+						}
+						if j.what == "ImportECDSA+Export" {
+							if b, err := ks.Export(acc, j.pw, j.pw); err != nil {
+								j.errs = append(j.errs, "Export: "+err.Error())
+							} else {
+								j.blobs = append(j.blobs, b)
+							}
+						} else {
+							if err := ks.Update(acc, j.pw, j.pw); err != nil {
+								j.errs = append(j.errs, "Update: "+err.Error())
+							} else if b, err := os.ReadFile(acc.URL.Path); err == nil {
+								j.blobs = append(j.blobs, b)
+							}
+						}
+					case "NewAccount":
+						ks := keystore.NewKeyStore(filepath.Join(dir, strconv.Itoa(rep)), j.n, j.p)
+						acc, err := ks.NewAccount(j.pw)
+						if err != nil {
+							j.errs = append(j.errs, err.Error())
+							continue
+						}
+						if b, err := os.ReadFile(acc.URL.Path); err == nil {
+							j.blobs = append(j.blobs, b)
+						}
+					}
+				}
+			}(i, j)
+		}
+		wg.Wait()
+		for i, j := range jobs {
+			in := map[string]interface{}{"key": hex.EncodeToString(j.scalar), "passphrase": j.pw, "scryptN": j.n, "scryptP": j.p, "goroutines": k, "operation": j.what, "goroutine": i}
+			for _, e := range j.errs {
+				violate("concurrent-roundtrip", "concurrent "+j.what+": operation failed", in, e)
+			}
+			for _, b := range j.blobs {
+				in["keyjson"] = string(b)
+				a := keystore.VerifAbstract(b)
+				if asNum(a.KDFParams["n"]).v != j.n || asNum(a.KDFParams["p"]).v != j.p {
+					violate("concurrent-roundtrip", "concurrent "+j.what+": kdfparams of another call", in,
+						fmt.Sprintf("file says n=%d p=%d, the call used n=%d p=%d", asNum(a.KDFParams["n"]).v, asNum(a.KDFParams["p"]).v, j.n, j.p))
+				}
+				out := decryptKey(b, j.pw)
+				if j.what == "NewAccount" { // the key was generated inside: the file must open and carry its own address
+					if !strings.HasPrefix(out, "ok") {
+						violate("concurrent-roundtrip", "concurrent "+j.what+": file does not open with its own passphrase", in, out)
+					}
+				} else {
+					_, addr := addrOfScalar(j.scalar)
+					if out != "ok "+hex.EncodeToString(j.scalar)+" "+hex.EncodeToString(addr[:]) {
+						violate("concurrent-roundtrip", "concurrent "+j.what+": file does not open with its own passphrase to its own key", in, out)
+					}
+					dkCase(origin{"bare DecryptKey (written concurrently by " + j.what + ")", "v3-scrypt", "", ""}, expect{"R", j.scalar, addr}, b, j.pw)
+				}
+				run.Count("concurrent:" + j.what)
+			}
+		}
+		os.RemoveAll(root)
+	}
+}
+
 // testVectors: the repo's own key-file vectors (testdata/testkeystore/v3_test_vector.json), incl. the 31- and 30-byte keys.
 func testVectors(thorough bool) {
 	repo := os.Getenv("VERIF_REPO")
@@ -1369,6 +1616,12 @@ func main() {
 		nsub = 150
 	}
 	substitutionCases(rng.Fork(7), nsub)
+	nupd, nconc := 1, 2
+	if thorough {
+		nupd, nconc = 20, 25
+	}
+	updateCases(rng.Fork(8), nupd, thorough)
+	concurrentCases(rng.Fork(9), nconc, 6)
 	run.Notes["t_flows_s"] = time.Since(t0).Seconds()
 	// 2. tampering: every character of every field of base files of every format
 	tr := rng.Fork(2)
